@@ -333,5 +333,7 @@ def run(ctx):
     rule_nbr_table(ctx, tu)
     from . import c16
     c16.rule_uncg(ctx, ctx.py, "C02.UNCG")
+    from .. import lints
+    lints.run(ctx, "C02", ctx.py, ["coarsegrain", "kinetics"])
     ctx.assume("floating-point exactness of the Euler sums is not decided; opposed_direction is an involution pairing "
                "opposite moves (C15.DISP); the stoichiometric matrix layout is C01.LAYOUT / C19.MATRIX")
